@@ -434,6 +434,9 @@ func parseBlock(c *casketfile.Dispenser, u *staticUpstream, hasSrv bool) error {
 		if err != nil {
 			return err
 		}
+		if dur <= 0 {
+			return c.Errf("health_check_interval must be positive, got %s", interval)
+		}
 		u.HealthCheck.Interval = dur
 	case "health_check_timeout":
 		var interval string
